@@ -49,9 +49,9 @@ for pid, why in (("C15", "bounded over sentences: timeline! is compared with the
 
 # bounded native searches on the real code that always run with the property's check (never counted as proved)
 P["C11"]["native"] = ["native_builder_search"]
-P["C17"]["native"] = ["native_derive_search"]
+P["C17"]["native"] = ["native_derive_search", "native_builder_stable_search"]
 P["C12"]["native"] = ["native_merged_search"]
 P["C06"]["native"] = ["native_dur_search"]
-P["C01"]["native"] = ["native_prepare_search"]
+P["C01"]["native"] = ["native_prepare_search", "native_builder_stable_search"]
 P["C10"]["native"] = ["native_prepare_search"]
 
